@@ -144,14 +144,17 @@ def etext(e):
 
 
 def obs_text(t):
-    """canonical text of an observed term (the rules of ArithCtx!ErrText: functional notation, no quotes, no blanks)"""
+    """canonical text of an observed error term (the rules of ArithCtx!ErrText: functional notation, no quotes, no
+    blanks).  A float culprit is written by its bits, except that -0.0 is written as 0.0: Scryer interns floats by
+    numeric equality (OrderedFloat), so which zero an error term shows depends on which zero the machine saw first,
+    not on the expression (values, as opposed to culprits, are compared bit for bit)."""
     k = t[0]
     if k == 'a':
         return t[1]
     if k == 'i':
         return str(t[1])
     if k == 'f':
-        return "%016x" % t[1]
+        return "%016x" % (0 if t[1] == 0x8000000000000000 else t[1])
     if k == 'r':
         return "%d/%d" % (t[1], t[2])
     if k == 'v':
@@ -188,28 +191,34 @@ PRED = {"inline": "i", "var": "v", "findall": "f", "assert": "a", "call": "c", "
 
 
 def expr_steps(k, e, nested_ok=True):
-    """harness steps for one expression and the plan to read them back: list of (ctx, consult index or None, query index)"""
+    """harness steps for one expression and the plan to read them back: list of (ctx, consult index or None, query index).
+    Each context is loaded and queried in turn, so that a panic in one context (the harness then continues on a new
+    machine) does not take the clauses of the other contexts with it."""
     steps, plan = [], []
     cl = clauses(k, e)
-    load = {}
+    E = etext(e)
     for ctx in VALUE_CTX + TEST_CTX:
-        if ctx in cl and (ctx != "nested" or nested_ok):
-            load[ctx] = len(steps)
-            steps.append({"consult": cl[ctx] + "\n"})
-            # a consult that ended with an error leaves the machine in a state in which the next *throwing* query
-            # panics (raw_block.rs "Shrink cannot grow"; not C03's subject): a non-throwing query clears it
-            steps.append({"q": "true.", "max": 1})
-    for ctx in VALUE_CTX:
         if ctx == "catch":
             plan.append((ctx, None, len(steps)))
-            steps.append({"q": "catch(X is %s, error(Err,_), true)." % etext(e), "max": 2})
-        elif ctx in load:
-            plan.append((ctx, load[ctx], len(steps)))
+            steps.append({"q": "catch(X is %s, error(Err,_), true)." % E, "max": 2})
+            continue
+        if ctx not in cl or (ctx == "nested" and not nested_ok):
+            continue
+        li = len(steps)
+        text = cl[ctx] + "\n"
+        if ctx in TEST_CTX:
+            # the probe number of the comparison is delivered by a compiled clause of its own
+            text = "p%s_%d(X) :- X is %s.\n" % (PRED[ctx], k, E) + text
+        steps.append({"consult": text})
+        # a consult that ended with an error leaves the machine in a state in which the next *throwing* query
+        # panics (raw_block.rs "Shrink cannot grow"; not C03's subject): a non-throwing query clears it
+        steps.append({"q": "true.", "max": 1})
+        plan.append((ctx, li, len(steps)))
+        if ctx in TEST_CTX:
+            steps.append({"q": "catch(p%s_%d(V), _, V = 0), catch((%s_%d(V) -> R = true ; R = false), error(Err,_), R = err)."
+                               % (PRED[ctx], k, PRED[ctx], k), "max": 2})
+        else:
             steps.append({"q": "catch(%s_%d(X), error(Err,_), true)." % (PRED[ctx], k), "max": 2})
-    for ctx in TEST_CTX:
-        plan.append((ctx, load[ctx], len(steps)))
-        steps.append({"q": "catch(i_%d(V), _, V = 0), catch((%s_%d(V) -> R = true ; R = false), error(Err,_), R = err)."
-                           % (k, PRED[ctx], k), "max": 2})
     return steps, plan
 
 
@@ -258,27 +267,42 @@ def read_test(out):
 LOAD_ERR = re.compile(r"(error\(.*\))\.\s*$", re.S)
 
 
+def make_job(jid, ids, vecs, nested_ok):
+    steps, plan = [], []
+    for k, i in enumerate(ids):
+        st, p = expr_steps(k, vecs[i]["e"], nested_ok)
+        off = len(steps)
+        steps += st
+        plan.append((i, [(ctx, None if li is None else li + off, qi + off) for ctx, li, qi in p]))
+    return {"id": jid, "steps": steps, "timeout": 300, "fresh": True}, plan
+
+
 def collect(vecs, nested_ok, workers=8, per_job=40):
     """run every expression in every context; returns obs[id] = list of event dicts (without begin)"""
     jobs, plans = [], {}
     for bi in range(0, len(vecs), per_job):
-        steps, plan = [], []
-        for k, v in enumerate(vecs[bi:bi + per_job]):
-            s, p = expr_steps(k, v["e"], nested_ok)
-            off = len(steps)
-            steps += s
-            plan.append([(ctx, None if li is None else li + off, qi + off) for ctx, li, qi in p])
-        jobs.append({"id": bi, "steps": steps, "timeout": 300, "fresh": True})
-        plans[bi] = plan
+        job, plan = make_job(len(jobs), list(range(bi, min(bi + per_job, len(vecs)))), vecs, nested_ok)
+        jobs.append(job)
+        plans[job["id"]] = plan
     results = run_jobs(jobs, workers=workers, job_timeout=300)
+    # a worker that died or stalled took a whole batch with it: run the expressions of such a batch again, one per
+    # job, to tell an abort/hang of the code under test (repeats, attributed to its expression) from a kill from outside
+    crashed = [j for j in jobs if "crash" in results.get(j["id"], {"crash": "missing"})]
+    if crashed:
+        retry = []
+        for j in crashed:
+            for i, _ in plans.pop(j["id"]):
+                job, plan = make_job(len(jobs) + len(retry), [i], vecs, nested_ok)
+                retry.append(job)
+                plans[job["id"]] = plan
+        jobs = [j for j in jobs if j["id"] in plans] + retry
+        results.update(run_jobs(retry, workers=workers, job_timeout=300))
     obs = {}
     load_msgs = {}     # printed loader message -> parsed Formal text (filled below)
     pending = []
     for job in jobs:
-        bi = job["id"]
-        r = results.get(bi, {"crash": "missing"})
-        for k, p in enumerate(plans[bi]):
-            eid = bi + k
+        r = results.get(job["id"], {"crash": "missing"})
+        for eid, p in plans[job["id"]]:
             evs = []
             for ctx, li, qi in p:
                 if "crash" in r:
@@ -407,7 +431,7 @@ def signature(kind, e, evs, oracle):
             key = "%s:%s" % (ev["kind"], ev["s"])
         groups.setdefault(key, []).append(ev["ctx"])
     parts = ["%s<-%s" % (k, "+".join(sorted(v))) for k, v in sorted(groups.items())]
-    return ("%s expr=%s oracle=%s :: %s" % (kind, etext(e), oracle, " | ".join(parts)))[:600]
+    return ("%s :: %s :: expr=%s oracle=%s" % (kind, " | ".join(parts), etext(e), oracle))[:700]
 
 
 def classify(e):
@@ -472,7 +496,7 @@ def run(tier):
     events = 0
     CH = 1200    # expressions per trace file; up to 4 single-worker TLC validations run side by side
     from concurrent.futures import ThreadPoolExecutor
-    with ThreadPoolExecutor(max_workers=4) as ex:
+    with ThreadPoolExecutor(max_workers=4 if tier == "quick" else 6) as ex:
         futs = [ex.submit(validate, rep, tables_path, vecs, obs, ids[ci:ci + CH], "%s-%d" % (tier, ci), index)
                 for ci in range(0, len(ids), CH)]
         for fu in futs:
@@ -505,7 +529,8 @@ def run(tier):
                        "text scan of get_unary_instr/get_binary_instr/push_literal/arith_eval_by_metacall"
                        + ("" if hdr["extracted"] else " FAILED: the specification's own functor table was used, tables not diffed"),
                        "canonical text renderer, Scryer's reader for the rendered literals, LeafAnswer projection",
-                       "a clause rejected at load time is observed through the loader's printed error term"]
+                       "a clause rejected at load time is observed through the loader's printed error term",
+                       "the sign of a zero float inside an error term is not compared (float interning makes it history dependent)"]
     try:
         os.remove(tables_path)
         os.remove(cfg)
